@@ -12,6 +12,7 @@ from pbt.samples import call, raised, build, sample_spec, fingerprint, fp_diff, 
 
 ID = 'C20'
 LEVEL = 'exploration'
+ENGINES = ['hypothesis', 'curated large files']
 RULE = ('Hypothesis draws a sample (1..5 channels, integer big/little-endian 8/16/32 bit or float32/64, with '
         '$BTIM/$ETIM/$DATE/$TIMESTEP, voltages, gains, labels), a history of 0..3 operations from {slice channels '
         '(names/positions, reordered), slice events (slice / boolean mask), to_rfi on a subset, to_mef on a '
@@ -106,9 +107,48 @@ def duplicate(d, how):
     return pickle.loads(pickle.dumps(d, protocol=int(how[-1])))
 
 
+def exhaustive_jobs(tier):
+    # files whose DATA segment is larger than 1 MiB, differing in one event at the very end / start / middle
+    return [dict(arm='bigfile', where=w) for w in ('last', 'first', 'middle')]
+
+
+def run_job(job):
+    from pbt.runner import Obs
+    obs = Obs()
+    try:
+        check(job, obs)
+    except Exception as e:
+        obs.failures.append(('crash', 'big file: %s: %s' % (type(e).__name__, e)))
+    return dict(evaluations=1, nontrivial=1, failures=[(t, m, job) for t, m in obs.failures[:5]],
+                labels={'curated:big_file': 1}, claims=dict(obs.claims), samples=[], complete=True)
+
+
+def _check_bigfile(case, obs):
+    import FlowCal.io
+    n, D = 140000, 4
+    rng = np.random.Generator(np.random.PCG64(11))
+    ev = rng.integers(0, 65536, size=(n, D)).tolist()
+    spec = dict(version='FCS3.0', datatype='I', byteord='1,2,3,4', widths=[16] * D, ranges=[65536] * D, events=ev,
+                names=['FSC-H', 'SSC-H', 'FL1-H', 'FL2-H'])
+    path = os.path.join(workdir(), 'c20big.fcs')
+    fcsgen.write(path, spec)
+    f1 = FlowCal.io.FCSFile(path)
+    f2 = FlowCal.io.FCSFile(path)
+    obs.claim('file_eq', (f1 == f2) is True and (f1 != f2) is False, 'two loads of the same large file compare unequal')
+    r = dict(last=n - 1, first=0, middle=n // 2 + 7)[case['where']]
+    ev[r][D - 1] ^= 1
+    fcsgen.write(path, dict(spec, events=ev))
+    f3 = FlowCal.io.FCSFile(path)
+    obs.nontrivial = True
+    obs.claim('file_ne', (f1 == f3) is False and (f1 != f3) is True,
+              lambda: 'loads of large files (%d events) differing in event %d compare equal' % (n, r))
+
+
 def check(case, obs):
     import FlowCal.io
     obs.label('arm:' + case['arm'])
+    if case['arm'] == 'bigfile':
+        return _check_bigfile(case, obs)
     if case['arm'] == 'file':
         spec = to_fcs_spec(case['spec'])
         # same-length variants, so that HEADER offsets and every other byte stay identical
